@@ -24,7 +24,9 @@ EXPLANATION = (
     "e_est, e). WMEAN-1: every weighted mean is normalised by the sum of the very weights under the "
     "numerator. PRNG-1/DET-1: random keys are used linearly and no wall-clock/global-RNG/hash source "
     "feeds the sampled computation. KEYS-1: every prop_data key the sampler reads is written by every "
-    "propagator's init_prop_data or by the entry prologue."
+    "propagator's init_prop_data or by the entry prologue. "
+    "WMEAN-1: the block estimator averages over the stored population weights (no masked copy). DET-1: "
+    "a user-supplied seed is kept for every value (get / setdefault / `not in`, never `or`). "
 )
 NOT_DECIDED = "numerical equality of the energies across entry points; bit-level reproducibility of XLA."
 
